@@ -58,6 +58,9 @@ CHECKS = {
     "C14": dict(engine="Judge+TermMachine", ref="5/C14",
                 text="Sampling is specified relationally in spec/Judge.tla (JudgeSample): the sample of f over the sampled variables has f's inputs plus the sample inputs and f's output, every point with finite value lies in the support of f, and for every batch element and particle its total mass over the sampled variables equals f's - TLC accepts ANY draw satisfying this. spec/SampleGen.tla enumerates log-density tensors (1-3 inputs, minus-infinity patterns) x every non-empty subset of sampled variables x 0-2 sample inputs; the harness calls x.sample with 3 seeds, twice each (identical result required: deterministic in the random state), serialises the returned Delta/Tensor term and TLC validates it. Delta semantics: the delta_ops TermMachine lens builds Deltas at numbers, batched tensors and lazy expressions (integer and real valued), evaluates them at and away from the point, adds funsors and reduces over the Delta's variable; eager values are compared with the L1 denotation (log-density at the point, minus infinity elsewhere).",
                 note="trusted as C01/C02 (float log-values are snapped to logs of small integer ratios, unrepresentable events are skipped and counted); Gaussian sampling, Integrate against a Delta and the MonteCarlo interpretation are not yet covered; unbiasedness is statistical and not addressed; one open finding (reduction of a non-unit-mass Delta drops its log_density)"),
+    "C20": dict(engine="Heap", ref="5/C20",
+                text="spec/Heap.tla states the frame condition as an action property over a heap of fingerprints (an entry may be added, never changed). For every program of the lenses the harness registers each leaf array (at creation) and every operand / intermediate / result funsor, runs eager and lazy construction, reinterpretation, normalisation, the optimizer, substitution, reduction, align, to_data, sampling, an in-place-prone binary op, adjoint computation and compilation, and logs after each step the fingerprints (blake2b of inputs, output and array bytes) of everything it holds; TLC validates every recorded history against Heap.tla and names the objects whose fingerprint changed. Self-test in every run: a corrupted fingerprint must be rejected.",
+                note="trusted: the fingerprint function in harness/fbuild.py (60 bits of blake2b reach TLC), TLC; only objects the harness holds are watched; programs are those of the TermMachine lenses (first N in breadth-first order); numpy backend"),
 }
 
 NOT_YET = "check not built yet in this round (planned, see DESIGN.md section 5)"
@@ -108,6 +111,8 @@ def main():
              "kind_free_text": "TLA+ subtype model, DispatchCache machine and trace judge over recorded truth tables / dispatch events; harness/dispatchdriver.py"},
             {"name": "GaussOps", "path": "spec/GaussOps.tla", "serves_properties": ["C13"],
              "kind_free_text": "TLA+ rational linear algebra: dense forms, Schur complements, normalisers, moments of Gaussian leaves (catalogue in GaussCat.tla); replayed by harness/modes.py:c13"},
+            {"name": "Heap", "path": "spec/Heap.tla", "serves_properties": ["C20"],
+             "kind_free_text": "TLA+ append-only heap of fingerprints (trace specification); histories recorded by harness/modes.py:c20"},
             {"name": "Judge", "path": "spec/Judge.tla", "serves_properties": ["C02", "C08"],
              "kind_free_text": "TLA+ trace specification that consumes recorded events (rule firings, emitted terms) and decides them with the L1 denotation"},
         ],
